@@ -40,13 +40,24 @@ Proof.
   repeat split; try (vm_compute; reflexivity). discriminate.
 Qed.
 
-(* a size-1 mismatch (malformed request): the core backend and mode_dot of the einsum backend reject, einsum multi_mode_dot AS IT
-   IS hands the operands to np.einsum, which broadcasts the size-1 axis (Model/Tenalg.v einsum_np) and returns a tensor *)
-Theorem multi_mode_dot_einsum_size1_broadcast_refuted :
-  exists (T M R : tensor Z), shape T = [2; 2] /\ shape M = [2; 1] /\
-    multi_mode_dot ZR T [M] (Some [1]) None false = Err /\ mode_dot_e ZR T M 1 false = Err /\
-    multi_mode_dot_e ZR T [M] (Some [1]) None false = Ok R.
+(* a size-1 mismatch (malformed request): since /repo 8b25fc6 the einsum multi_mode_dot checks every operand against its mode and
+   rejects, like the core backend and mode_dot of both backends; before, np.einsum broadcast the size-1 axis (einsum_np) *)
+Section R.
+Context {F : Type} (Op : rops F).
+Theorem multi_mode_dot_e_rejects_misfit (T : tensor F) (Ms : list (tensor F)) (modes : option (list nat)) (skip : option nat) (tr : bool) :
+  (exists x, In x (sort_by_mode (zip3 Ms modes)) /\ is_skip skip (snd x) = false /\ fit_one (shape T) tr (fst (fst x)) (t_mode x) = false) ->
+  multi_mode_dot_e Op T Ms modes skip tr = Err.
 Proof.
-  exists (mk [2; 2] [1; 2; 3; 4]%Z), (mk [2; 1] [1; 2]%Z), (mk [2; 2] [3; 6; 7; 14]%Z).
-  repeat split; vm_compute; reflexivity.
+  intros [x [Hx [Hs Hf]]]. unfold multi_mode_dot_e. cbv zeta.
+  assert (E : mmd_e_fits (shape T) tr skip (sort_by_mode (zip3 Ms modes)) = false).
+  { unfold mmd_e_fits. apply Bool.not_true_is_false. intros H. rewrite forallb_forall in H. specialize (H x Hx). now rewrite Hs, Hf in H. }
+  now rewrite E.
 Qed.
+End R.
+
+Example multi_mode_dot_einsum_size1_before_8b25fc6 :
+  let T : tensor Z := mk [2; 2] [1; 2; 3; 4]%Z in let M : tensor Z := mk [2; 1] [1; 2]%Z in
+  multi_mode_dot ZR T [M] (Some [1]) None false = Err /\ mode_dot_e ZR T M 1 false = Err /\
+  multi_mode_dot_e_before_8b25fc6 ZR T [M] (Some [1]) None false = Ok (mk [2; 2] [3; 6; 7; 14]%Z) /\
+  multi_mode_dot_e ZR T [M] (Some [1]) None false = Err.
+Proof. cbv zeta. repeat split; vm_compute; reflexivity. Qed.
